@@ -282,17 +282,22 @@ def c19_case(case, sandbox):
     with open(sfile, "w") as fh:
         fh.write("rst:\n  module_path_separator: '::'\nlogging:\n  version: 1\n")
 
+    # for two input kinds every path is RELATIVE (to the directory cmake is started in, which is not the directory of
+    # the calling script): it reaches the executable as given and means the same as on the command line
+    relative = case["input"]["kind"] in ("nesteddir", "file")
+
     def conc(t, out):
-        return t.replace("IN/", inp_root + "/").replace("SFILE", sfile).replace("OUT", out).replace("PFX", "pfx")
-    out_cmake = os.path.join(sandbox, "out_cmake")
-    out_cli = os.path.join(sandbox, "out_cli")
+        return t.replace("IN/", "IN/" if relative else inp_root + "/").replace("SFILE", sfile).replace("OUT", out).replace("PFX", "pfx")
+    out_cmake = "out_cmake" if relative else os.path.join(sandbox, "out_cmake")
+    out_cli = "out_cli" if relative else os.path.join(sandbox, "out_cli")
     log = os.path.join(sandbox, "shim")
     shim = os.path.join(sandbox, "cminx-shim.sh")
     with open(shim, "w") as fh:
         fh.write(SHIM.format(log=log, src=lib.CMINX_SRC, home=home, py=PY, driver=DRIVER))
     os.chmod(shim, 0o755)
     extra = [conc(x, out_cmake) for x in case["extra"]]
-    script = os.path.join(sandbox, "gen.cmake")
+    os.makedirs(os.path.join(sandbox, "ci"), exist_ok=True)
+    script = os.path.join(sandbox, "ci", "gen.cmake") if relative else os.path.join(sandbox, "gen.cmake")
     with open(script, "w") as fh:
         call = 'cminx_gen_rst("%s" "%s" %s)' % (conc(case["input"]["path"], out_cmake), out_cmake, " ".join(cmake_quote(x) for x in extra))
         if len(case["extra"]) % 2 == 1 or case["input"]["kind"] in ("flatdir", "linkedfile"):
@@ -323,8 +328,9 @@ def c19_case(case, sandbox):
     rc, so, se = run_process(argv_cli, sandbox, home)
     if (rc != 0) != (status != 0):
         return "same exit behaviour", [rc, status], "direct run and wrapped run disagree on failure"
-    t1 = read_tree(out_cmake) if os.path.isdir(out_cmake) else {}
-    t2 = read_tree(out_cli) if os.path.isdir(out_cli) else {}
+    oc, ol = os.path.join(sandbox, out_cmake), os.path.join(sandbox, out_cli)
+    t1 = read_tree(oc) if os.path.isdir(oc) else {}
+    t2 = read_tree(ol) if os.path.isdir(ol) else {}
     if t1 != t2:
         return sorted(t2), sorted(t1), "output tree of cminx_gen_rst differs from the direct command line run"
     return None
